@@ -57,6 +57,13 @@ def main():
     np.random.random_sample(int.from_bytes(__import__("os").urandom(1), "little") + 1)
     rec("many_components_spectral", Xc, None, n_neighbors=6, n_jobs=-1)
     rec("many_components_tswspectral", Xc, None, n_neighbors=6, n_jobs=1, init="tswspectral")
+    # components so far apart that every affinity between their centroids underflows to zero: the eigenproblem that places the
+    # components is then completely degenerate (any orthonormal basis solves it); the choice must still be a function of the seed
+    Xd = np.concatenate([rc.normal(size=(30, 4)) * 0.3 + c * 40 for c in range(5)]).astype(np.float32)
+    # (whether an iterative eigensolver has to restart from a fresh random vector depends on its start vector, i.e. on the seed: several seeds)
+    for s_ in (42, 1, 2, 3):
+        rec("degenerate_component_affinities_rs%d" % s_, Xd, None, random_state=s_, n_neighbors=6, n_jobs=-1)
+        rec("degenerate_component_affinities_rs%d_again" % s_, Xd, None, random_state=s_, n_neighbors=6, n_jobs=1)
     if tier == "thorough":
         rec("cosine_exact", X, Y, metric="cosine", n_jobs=-1)
         rec("supervised", X, None, n_jobs=-1) if False else None
